@@ -1,4 +1,207 @@
-(* C10 -- placeholder while the model is being tied; replaced by the theorem file. *)
-From Symv Require Import Sym.Descriptor.
-Example c10_tables_build : build_rules sc_autodetect sc_build_actions [] <> None /\ build_rules nc_autodetect nc_build_actions [] <> None.
-Proof. vm_compute. split; discriminate. Qed.
+(* C10 -- a transaction built from a descriptor carries exactly the described values.
+   Statements only; proofs are in Sym/DescriptorProofs.v.  Left-hand sides: Sym/Descriptor.v, the model of
+   TransactionDescriptorProcessor / RuleBasedTransactionFactory / symbol+nem TransactionFactory.create(_embedded) whose tables
+   (TYPE_HINTS, autodetected classes, _build_rules calls, create_by_name mappings), key names, prefixes and the `_computed` suffix are
+   regenerated from /repo (Gen/DescriptorOps.v, Gen/DescriptorRulesSc.v, Gen/DescriptorRulesNc.v) and whose objects are the layout
+   interpreter's values over the regenerated schemas.  Right-hand sides: fixed text.
+   Level: proof, partial -- reflection-based rule discovery (dir(module), inspect) is represented by the regenerated tables. *)
+From Symv Require Import Base.Bytes Base.PyOps Cats.LayoutRender Cats.LayoutInstProofs Sym.Keccak Sym.Ids Sym.IdsProofs Sym.Address
+  Sym.Descriptor Sym.DescriptorProofs.
+From Coq Require Import Sorted.
+Open Scope string_scope.
+Open Scope Z_scope.
+
+(* ---- per-run obligations on the regenerated tables (closed by the kernel) ---- *)
+
+(* the rule tables build, every class of every create_by_name mapping is a struct of the schema whose members carry exactly the schema's
+   TYPE_HINTS, and the rule looked up for each member is the documented one: BaseValue for integer types, names for enums / flags,
+   hex for PublicKey / VotingPublicKey / Hash256, base32 for Address / UnresolvedAddress, element-wise for their arrays *)
+Example tables_are_documented :
+  build_rules sc_autodetect sc_build_actions [] <> None /\ build_rules nc_autodetect nc_build_actions [] <> None
+  /\ tables_documented sc_cfg = true /\ tables_documented nc_cfg = true
+  /\ autodetect_matches_schema sc_cfg = true /\ autodetect_matches_schema nc_cfg = true.
+Proof. vm_compute. repeat split; discriminate. Qed.
+
+(* the key names and affixes the code uses are the documented ones *)
+Example names_are_documented :
+  type_key = "type" /\ type_ignore_key = "type" /\ computed_suffix = "_computed" /\ n_network_key sc_cfg = "network" /\ n_network_key nc_cfg = "network"
+  /\ flag_none_name = "none" /\ flag_none_value = 0 /\ flag_separator = 32 /\ sym_root_parent = 0
+  /\ py_name "type" = "type_" /\ py_name "fee" = "fee".
+Proof. repeat split; reflexivity. Qed.
+
+(* ---- create_holds_values ---- *)
+(* PARTIAL: stated for the object as create_from_factory leaves it (create_core), i.e. before sort() and the id / message post-processing,
+   which are characterised separately below (autosort_canonical, ids_filled_*, post_processing_touches_only).
+   FULL STATEMENT (not proved as one theorem): for every descriptor with distinct keys, `create N emb autosort ident d = Ok v` implies that
+   v is an object of the class create_by_name gives for d's type, each member named by d holds the coerced value of its entry
+   (lists appended to the constructor's list, strs encoded as UTF-8), permuted by the stable key sort if autosort and with `id` replaced by
+   the generated id for the two artifact types, every other member holds the constructor default, `network` holds ident. *)
+Theorem create_holds_values_partial : forall N emb ident d v, NoDup (map fst d) -> create_core N emb ident d = Ok v ->
+  let d1 := dict_set d (n_network_key N) (DInt ident) in
+  exists s name cls e0 e',
+    assoc "type" d1 = Some (DStr s) /\ In (name, cls) (n_names N emb) /\ str_is name s = true /\
+    new_instance N cls = Ok (VStruct cls e0) /\ v = VStruct cls e' /\ map fst e' = map fst e0 /\
+    (forall k dv, In (k, dv) d1 -> k <> "type" ->
+       exists f x, member_of N cls k = Some f /\ lookup_value N cls k dv = Ok x /\
+                   forall old, assoc (f_name f) e0 = Some old -> vget v (f_name f) = Some (encode_str (stored x old))) /\
+    (forall n, (forall k dv f, In (k, dv) d1 -> k <> "type" -> member_of N cls k = Some f -> f_name f <> n) ->
+       vget v n = option_map encode_str (assoc n e0)).
+Proof. exact create_core_holds. Qed.
+Print Assumptions create_holds_values_partial.
+
+(* the network member is the facade's identifier, whatever the descriptor says *)
+Theorem created_network_is_facade_identifier : forall N emb ident d cls e c f,
+  NoDup (map fst d) -> create_core N emb ident d = Ok (VStruct cls e) -> n_network_key N <> "type" ->
+  rule_for N cls (n_network_key N) = Some (REnum c) -> member_of N cls (n_network_key N) = Some f ->
+  vget (VStruct cls e) (f_name f) = Some (VInt ident).
+Proof. exact create_core_network. Qed.
+Print Assumptions created_network_is_facade_identifier.
+
+(* members paired with a class constant (type <- TRANSACTION_TYPE, version <- TRANSACTION_VERSION) hold it unless the descriptor names them *)
+Theorem created_type_and_version_are_class_constants : forall N emb ident d cls e s f cf,
+  NoDup (map fst d) -> create_core N emb ident d = Ok (VStruct cls e) -> lookup_struct (n_tm N) cls = Some s ->
+  In f (settable_fields s) -> paired_const s f = Some cf -> NoDup (map f_name (settable_fields s)) ->
+  ~ In (py_name (f_name f)) (map fst (dict_set d (n_network_key N) (DInt ident))) ->
+  exists v, const_value N cf = Ok v /\ vget (VStruct cls e) (f_name f) = Some (encode_str v).
+Proof. exact created_constants. Qed.
+Print Assumptions created_type_and_version_are_class_constants.
+
+(* what the coerced value of a leaf entry is, form by form (the right-hand sides are the documented meanings) *)
+Theorem coerce_integer : forall N cls z x, parse_pod N cls (DInt z) = Ok x ->
+  exists nm i cm, lookup (n_tm N) cls = Some (DAlias nm (LInt i) cm) /\ x = DObj OCodec cls (VInt z)
+                  /\ (In (it_size i) [1; 2; 4; 8] -> 0 <= z < 2 ^ (8 * it_size i)).
+Proof. exact parse_pod_spec. Qed.
+Print Assumptions coerce_integer.
+
+Theorem coerce_hex_string : forall N c s x, c <> SdkAddress -> parse_sdk N c (DStr s) = Ok x ->
+  exists b, unhexlify s = Some b /\ Z.of_nat (length b) = sdk_size N c /\ x = DObj OSdk (sdk_name c) (VBytes b)
+            /\ length s = (2 * length b)%nat /\ Forall (fun ch => hex_digit_val ch <> None) s /\ wf_bytes b = true.
+Proof. exact parse_sdk_hex_spec. Qed.
+Print Assumptions coerce_hex_string.
+
+Theorem coerce_enum_name : forall N cls s x, parse_enum N cls (DStr s) = Ok x ->
+  exists e, In e (enum_values N cls) /\ str_is (lower_string (ev_name e)) s = true /\ x = DObj OCodec cls (VInt (ev_value e)).
+Proof. exact parse_enum_str. Qed.
+Print Assumptions coerce_enum_name.
+
+Theorem coerce_flag_names : forall N cls s x, parse_flags N cls (DStr s) = Ok x ->
+  exists zs, Forall2 (fun n v => (str_is "none" n = true /\ v = 0) \/
+                                 (exists e, In e (enum_values N cls) /\ is_single_bit (ev_value e) = true
+                                            /\ str_is (lower_string (ev_name e)) n = true /\ ev_value e = v)) (split_on 32 s) zs
+             /\ x = DObj OCodec cls (VInt (fold_right Z.lor 0 zs)).
+Proof. exact parse_flags_names. Qed.
+Print Assumptions coerce_flag_names.
+
+(* ---- create_rejects ---- *)
+(* no type, an unknown type name, or one entry that names no settable member / a computed member / an out-of-range number /
+   an unknown enum or flag name / a non-member enum value / a flag number that is negative or has foreign bits / a hex string or byte
+   string of the wrong length: no object is created (never an object that ignores or truncates the entry) *)
+Theorem create_rejects : forall N emb autosort ident d,
+  let d1 := dict_set d (n_network_key N) (DInt ident) in
+  (assoc "type" d1 = None
+   \/ (exists s, assoc "type" d1 = Some (DStr s) /\ forall p, In p (n_names N emb) -> str_is (fst p) s = false)
+   \/ (exists s cls k dv, assoc "type" d1 = Some (DStr s) /\ class_of_type N emb (DStr s) = Ok cls /\
+                          In (k, dv) d1 /\ k <> "type" /\ bad_entry N cls k dv)) ->
+  forall v, create N emb autosort ident d <> Ok v.
+Proof. exact DescriptorProofs.create_rejects. Qed.
+Print Assumptions create_rejects.
+
+(* non-vacuity: concrete rejected entries for the shipped tables (unknown member, class constant, method, private slot, computed member,
+   2^64 and -1 for a 64-bit amount, unknown / upper-case enum name, unknown flag name, negative flag number) *)
+Example rejected_entries :
+  bad_entry sc_cfg "TransferTransactionV1" "fee_" (DInt 1) /\ bad_entry sc_cfg "TransferTransactionV1" "TYPE_HINTS" (DInt 1)
+  /\ bad_entry sc_cfg "TransferTransactionV1" "serialize" (DInt 1) /\ bad_entry sc_cfg "TransferTransactionV1" "_fee" (DInt 1)
+  /\ bad_entry nc_cfg "TransferTransactionV2" "message_envelope_size_computed" (DInt 0)
+  /\ bad_entry sc_cfg "TransferTransactionV1" "fee" (DInt (2 ^ 64)) /\ bad_entry sc_cfg "TransferTransactionV1" "fee" (DInt (-1))
+  /\ bad_entry sc_cfg "AccountKeyLinkTransactionV1" "link_action" (DStr (of_string "LINK"))
+  /\ bad_entry sc_cfg "MosaicDefinitionTransactionV1" "flags" (DStr (of_string "transferable bogus"))
+  /\ bad_entry sc_cfg "MosaicDefinitionTransactionV1" "flags" (DInt (-1)).
+Proof.
+  repeat split.
+  - apply BadNonMember. vm_compute. reflexivity.
+  - apply BadNonMember. vm_compute. reflexivity.
+  - apply BadNonMember. vm_compute. reflexivity.
+  - apply BadNonMember. vm_compute. reflexivity.
+  - apply BadComputed. vm_compute. reflexivity.
+  - eapply BadRange; [vm_compute; reflexivity|vm_compute; reflexivity|vm_compute; auto 6|vm_compute; intros [_ H]; discriminate].
+  - eapply BadRange; [vm_compute; reflexivity|vm_compute; reflexivity|vm_compute; auto 6|vm_compute; intros [H _]; apply H; reflexivity].
+  - eapply BadEnumName; [vm_compute; reflexivity|]. vm_compute. intros e [<-|[<-|[]]]; reflexivity.
+  - eapply (BadFlagName _ _ _ _ _ (of_string "bogus")); [vm_compute; reflexivity|vm_compute; auto|vm_compute; reflexivity|].
+    vm_compute. intros e [<-|[<-|[<-|[<-|[<-|[]]]]]]; reflexivity.
+  - eapply BadFlagValue; [vm_compute; reflexivity|]. left. reflexivity.
+Qed.
+
+(* ---- create_then_enc_dec ---- *)
+(* Composition with the codec.  The layout round trip (C01/C02: decoding the encoding of an admissible value through the family factory
+   yields that value) is a NAMED PREMISE here -- the lead's proof of it is in progress; `adm` is its admissibility predicate. *)
+Section EncDec.
+Variable N : netcfg.
+Variable root : string.               (* "Transaction" / "EmbeddedTransaction": the family whose factory deserializes *)
+Variable adm : value -> Prop.
+Hypothesis layout_roundtrip_premise : forall v b, adm v -> m_enc (n_tm N) "" v = Ok b -> m_decf (n_tm N) root b = Ok v.
+
+Theorem create_then_enc_dec : forall emb autosort ident d v b,
+  create N emb autosort ident d = Ok v -> adm v -> m_enc (n_tm N) "" v = Ok b ->
+  m_decf (n_tm N) root b = Ok v /\ exists cls e, v = VStruct cls e /\ In cls (map snd (n_names N emb)).
+Proof.
+  exact (fun emb autosort ident d v b Hc Ha He => conj (layout_roundtrip_premise v b Ha He) (created_class N emb autosort ident d v Hc)).
+Qed.
+End EncDec.
+Print Assumptions create_then_enc_dec.
+
+(* ---- autosort_canonical ---- *)
+(* with automatic sorting on, each keyed array of the created transaction is the stable key sort of what the descriptor gave, and it
+   satisfies the strict-order predicate of C12 (strictly ascending under the declared comparer) when the keys are pairwise distinct *)
+Theorem autosort_canonical : forall N emb ident d v', create N emb true ident d = Ok v' ->
+  exists cls e0, create_core N emb ident d = Ok (VStruct cls e0) /\
+  forall s n f a key l, lookup_struct (n_tm N) cls = Some s -> find_field (non_const (s_fields s)) n = Some f ->
+    f_type f = FArray a -> a_sort_key a = Some key -> assoc n e0 = Some (VArr l) -> n <> "id" -> n <> "message" ->
+    exists ks, keys_of_values (n_tm N) a l = Ok ks /\
+               vget v' n = Some (VArr (map snd (sort_pairs key_lt (combine ks l)))) /\
+               (shape_ok ks -> NoDup ks -> StronglySorted (fun p q => key_lt_spec (fst p) (fst q) = true) (sort_pairs key_lt (combine ks l))).
+Proof. exact DescriptorProofs.autosort_canonical. Qed.
+Print Assumptions autosort_canonical.
+
+(* the post-processing after sorting touches `id` (symbol) / `message` (nem) only *)
+Theorem post_processing_touches_only : forall N ident v v' n, extend N ident v = Ok v' -> n <> "id" -> n <> "message" -> vget v' n = vget v n.
+Proof. exact extend_other. Qed.
+Print Assumptions post_processing_touches_only.
+
+(* ---- ids_filled ---- *)
+(* symbol: the id of a created namespace registration / mosaic definition equals the hash definition of C13 applied to the transaction's
+   own name + parent (0 for a root) / own nonce + the address of its own signer on the facade's network *)
+Theorem ids_filled_namespace : forall N t_ns t_md child emb autosort ident d v',
+  n_flavor N = Symbol -> enum_member N "TransactionType" "NAMESPACE_REGISTRATION" = Some t_ns ->
+  enum_member N "TransactionType" "MOSAIC_DEFINITION" = Some t_md -> enum_member N "NamespaceRegistrationType" "CHILD" = Some child ->
+  create N emb autosort ident d = Ok v' -> vget v' "type" = Some (VInt t_ns) -> vget v' "id" <> None ->
+  exists nm parent, vget v' "name" = Some (VBytes nm) /\
+    ((vget v' "registration_type" = Some (VInt child) /\ vget v' "parent_id" = Some (VInt parent)) \/
+     (vget v' "registration_type" <> Some (VInt child) /\ parent = 0)) /\
+    vget v' "id" = Some (VInt (from_le (firstn 8 (sha3_256 (to_le 8 parent ++ nm)%list)) mod 2 ^ 63 + 2 ^ 63)).
+Proof. exact (fun N t_ns t_md child emb autosort ident d v' Hs E1 E2 E3 => namespace_id_filled N Hs t_ns t_md child E1 E2 E3 emb autosort ident d v'). Qed.
+Print Assumptions ids_filled_namespace.
+
+Theorem ids_filled_mosaic : forall N t_ns t_md child emb autosort ident d v',
+  n_flavor N = Symbol -> enum_member N "TransactionType" "NAMESPACE_REGISTRATION" = Some t_ns ->
+  enum_member N "TransactionType" "MOSAIC_DEFINITION" = Some t_md -> enum_member N "NamespaceRegistrationType" "CHILD" = Some child -> t_md <> t_ns ->
+  create N emb autosort ident d = Ok v' -> vget v' "type" = Some (VInt t_md) -> vget v' "id" <> None ->
+  exists pk nonce addr, vget v' "signer_public_key" = Some (VBytes pk) /\ vget v' "nonce" = Some (VInt nonce) /\
+    public_key_to_address_now Symbol ident pk = Ok addr /\
+    vget v' "id" = Some (VInt (from_le (firstn 8 (sha3_256 (to_le 4 nonce ++ addr)%list)) mod 2 ^ 63)).
+Proof. exact (fun N t_ns t_md child emb autosort ident d v' Hs E1 E2 E3 Hne => mosaic_id_filled N Hs t_ns t_md child E1 E2 E3 Hne emb autosort ident d v'). Qed.
+Print Assumptions ids_filled_mosaic.
+
+(* non-vacuity on the shipped symbol tables: the enum members exist, are distinct, and a concrete descriptor of each artifact type is
+   created with its generated id *)
+Example ids_example :
+  enum_member sc_cfg "TransactionType" "NAMESPACE_REGISTRATION" = Some 16718 /\ enum_member sc_cfg "TransactionType" "MOSAIC_DEFINITION" = Some 16717
+  /\ enum_member sc_cfg "NamespaceRegistrationType" "CHILD" = Some 1
+  /\ (exists v, create sc_cfg false true 152 [("type", DStr (of_string "namespace_registration_transaction_v1")); ("name", DStr (of_string "roger"))] = Ok v
+                /\ vget v "id" = Some (VInt (generate_namespace_id sha3_256 (of_string "roger") 0)))
+  /\ (exists v, create sc_cfg true false 104 [("type", DStr (of_string "mosaic_definition_transaction_v1")); ("nonce", DInt 123)] = Ok v
+                /\ vget v "type" = Some (VInt 16717) /\ vget v "id" <> None).
+Proof.
+  repeat split; try (vm_compute; reflexivity).
+  - eexists. split; vm_compute; reflexivity.
+  - eexists. split; [vm_compute; reflexivity|]. split; [vm_compute; reflexivity|]. vm_compute. discriminate.
+Qed.
